@@ -98,6 +98,16 @@ def collect(ctx, nprog, with_tests=True, seed_offset=0, explore_kw=None):
             body += "flow s%d\n  match E1()\n  start A1Action(x=1) as $r\n  match %s()\n\n" % (k, ends.split()[k])
         body += "flow main\n" + "".join("  start s%d\n" % k for k in range(n)) + "  match Never()\n"
         progs.append(("shared-action:%d" % i, body))
+    # heads that lose an action conflict while a failure handler is installed (or-groups / when cases of raw actions)
+    rival = "flow rival\n  match E1(p=1)\n  start A2Action(x=2)\n  match E3()\n\n"
+    progs.append(("conflict-catch:0", "flow comp\n  match E1()\n  start A1Action(x=1) or A2Action(x=1)\n  match E2()\n\n" + rival
+                  + "flow main\n  start comp\n  start rival\n  match Never()\n"))
+    progs.append(("conflict-catch:1", "flow comp\n  match E1()\n  when A1Action(x=1)\n    send Out1()\n  or when A2Action(x=1)\n    send Out2()\n  match E2()\n\n" + rival
+                  + "flow main\n  start comp\n  start rival\n  match Never()\n"))
+    progs.append(("conflict-catch:2", "flow comp\n  match E1()\n  when A1Action(x=1)\n    send Out1()\n  or when A2Action(x=1)\n    send Out2()\n  else\n    send Out3()\n  match E2()\n\n"
+                  + "flow main\n  start comp\n  match Never()\n"))
+    progs.append(("conflict-catch:3", "flow comp\n  match E1()\n  start A1Action(x=1) or A2Action(x=1)\n  match E2()\n\nflow wrap\n  await comp\n  send Out1()\n\n" + rival
+                  + "flow main\n  start wrap\n  start rival\n  match Never()\n"))
     srcs = dict(progs)
     res = v2corpus.explore_many(progs, ctx.seed, **explore_kw)
     traces, errors = [], []
